@@ -31,7 +31,7 @@ fn strings_ok(v: &Value) -> bool {
 /// scalar documents: header 0x20000000, an ARBITRARY entry word and up to 3 payload bytes, every truncation:
 /// parse_jsonb returns Ok or Err (no panic); a returned string is valid UTF-8
 #[kani::proof]
-#[kani::unwind(6)]
+#[kani::unwind(14)]
 #[kani::stub(crate::parser::parse_value, no_text)]
 fn kb_decode_scalar11() {
     let mut raw = [0u8; 11];
@@ -48,7 +48,7 @@ fn kb_decode_scalar11() {
 
 /// arrays with an ARBITRARY count in the header byte 3 (0..=255), two arbitrary entry words and 3 payload bytes, every truncation
 #[kani::proof]
-#[kani::unwind(6)]
+#[kani::unwind(18)]
 #[kani::stub(crate::parser::parse_value, no_text)]
 fn kb_decode_array15() {
     let mut raw = [0u8; 15];
@@ -66,7 +66,7 @@ fn kb_decode_array15() {
 /// objects with 2 members whose 4 entry words and 2 key bytes are arbitrary: keys of a returned object are valid UTF-8
 /// (this is the place where adjacent keys share one byte area)
 #[kani::proof]
-#[kani::unwind(8)]
+#[kani::unwind(24)]
 #[kani::stub(crate::parser::parse_value, no_text)]
 fn kb_decode_object_keys() {
     let mut raw = [0u8; 22];
@@ -79,11 +79,15 @@ fn kb_decode_object_keys() {
     }
 }
 
-/// text that does not start with a JSONB header byte is handed to the text parser, never to the binary decoder:
-/// with the text parser stubbed to fail, from_slice must fail for every such input (8 arbitrary bytes)
+fn decode_must_not_run<'a>(_d: &mut Decoder<'a>) -> Result<Value<'a>, Error> {
+    panic!("the binary decoder was run on input that does not start with a JSONB header byte")
+}
+
+/// text that does not start with a JSONB header byte is handed to the text parser, never to the binary decoder
+/// (the decoder is stubbed to panic, the text parser to fail): all 8-byte inputs
 #[kani::proof]
-#[kani::unwind(8)]
 #[kani::stub(crate::parser::parse_value, no_text)]
+#[kani::stub(Decoder::decode, decode_must_not_run)]
 fn kb_from_slice_text_not_binary() {
     let raw: [u8; 8] = kani::any();
     kani::assume(raw[0] != 0x20 && raw[0] != 0x40 && raw[0] != 0x80);
@@ -92,35 +96,21 @@ fn kb_from_slice_text_not_binary() {
 
 use crate::verif_kani_spec::*;
 
-/// C01 round trip on flat documents of concrete shape [2-byte scalar, Float64, 1-byte string, null/bool]:
-/// decode(doc) is Ok, re-encoding the decoded value gives the identical bytes, every proper prefix is rejected
+/// C01 round trip on scalar documents (null/bool, Int64/UInt64 small, Float64 1..4, strings of 0..2 ASCII bytes):
+/// decode(doc) is Ok, re-encoding gives the identical bytes, every proper prefix is rejected
 #[kani::proof]
-#[kani::unwind(40)]
+#[kani::unwind(24)]
 #[kani::stub(crate::parser::parse_value, no_text)]
-fn kb_roundtrip_array4() {
-    let a = [sc_w2(), sc_float9(), sc_str1(), sc_w0()];
-    let doc = layout_array(&[a[0].it, a[1].it, a[2].it, a[3].it]);
-    let r = parse_jsonb(doc.as_slice());
-    assert!(r.is_ok());
-    let v = r.unwrap();
-    let back = v.to_vec();
-    assert!(doc.eq_slice(back.as_slice()));
-    let cut: usize = kani::any();
-    kani::assume(cut < doc.n);
-    assert!(parse_jsonb(&doc.b[..cut]).is_err());
-}
-
-/// the same for objects {k1: 2-byte scalar, k2: Float64} with sorted distinct keys of widths 1 and 2
-#[kani::proof]
-#[kani::unwind(40)]
-#[kani::stub(crate::parser::parse_value, no_text)]
-fn kb_roundtrip_object2() {
-    let k = [key1(), key2()];
-    kani::assume(key_lt(&k[0], &k[1]));
-    let v = [sc_w2(), sc_float9()];
-    let doc = layout_object(&k, &[v[0].it, v[1].it]);
+fn kb_roundtrip_scalar() {
+    let k: u8 = kani::any();
+    kani::assume(k < 5);
+    let s = match k { 0 => sc_w0(), 1 => sc_num2(), 2 => sc_float9(), 3 => sc_str1(), _ => sc_str2() };
+    let doc = layout_scalar(&s.it);
     let r = parse_jsonb(doc.as_slice());
     assert!(r.is_ok());
     let back = r.unwrap().to_vec();
     assert!(doc.eq_slice(back.as_slice()));
+    let cut: usize = kani::any();
+    kani::assume(cut < doc.n);
+    assert!(parse_jsonb(&doc.b[..cut]).is_err());
 }
